@@ -8,7 +8,7 @@ import (
 //verif:witness H_C05_async_stop end
 //verif:witness H_C05_kinds end
 //verif:bound C05 quick async logger: Stop at every buffer occupancy 0..capacity (capacity 1..2, producers finish before Stop, worker idle / mid-append on a slow appender), 3 policies; every logger kind by direct construction (sync, async, console, file, rolling-file sync/async x 3 policies x separate), 2 events + 1 raw write, Stop once or twice
-//verif:bound C05 thorough as quick with pre-emption at every visible operation (2 pre-emptive switches)
+//verif:bound C05 thorough as quick with pre-emption at every visible operation (1 pre-emptive switch; switches forced by blocking are free)
 //verif:assume C05 'returns in bounded time' is decided as 'is not blocked forever / does not spin forever in the model' (outcomes BLOCKED / DIVERGE); wall-clock bounds are not modelled
 //verif:engine-only H_C05_async_stop
 
